@@ -196,6 +196,15 @@ Theorem C02_gone_inv_step : forall p st ev,
 Proof. exact gone_inv_step. Qed.
 Print Assumptions C02_gone_inv_step.
 
+(* tun.Write failing: the step is processed and credited as usual (same state,
+   same rx credits), but none of its packets is written. *)
+Theorem C02_tun_failure_loses_the_step : forall st l,
+  fst (step st (DgramsTunFail l)) = fst (step st (Dgrams l)) /\
+  (forall r, In r (snd (step st (DgramsTunFail l))) -> r_write r = None) /\
+  map r_rx (snd (step st (DgramsTunFail l))) = map r_rx (snd (step st (Dgrams l))).
+Proof. exact tun_failure_loses_the_step. Qed.
+Print Assumptions C02_tun_failure_loses_the_step.
+
 (* ------------------------------------------------------------------ non-vacuity *)
 
 (* 28 bytes received, IPv4 header declaring 24 *)
@@ -285,3 +294,13 @@ Example C02_trace_removed_premises :
   let st := final step c02_init [Handshake 0 77 1; Remove 0] in
   is_gone st 0 = true /\ s_peers st = [{| k_prev := None; k_cur := None; k_next := None |}] /\ s_tbl st = [].
 Proof. vm_compute. repeat split. Qed.
+
+(* TUN failure: the packet is credited but lost for good: presenting it again
+   after the TUN works again yields nothing (its counter was consumed) *)
+Example C02_trace_tunfail :
+  outs step c02_init
+    [Handshake 0 77 1; DgramsTunFail [Transport 77 1 false 1 c02_pkt];
+     Dgrams [Transport 77 1 false 1 c02_pkt; Transport 77 1 false 2 c02_pkt]]
+  = [ []; [ {| r_write := None; r_rx := Some (0, 60) |} ];
+      [ nothing; {| r_write := Some (0, firstn 24 c02_pkt); r_rx := Some (0, 60) |} ] ].
+Proof. vm_compute. reflexivity. Qed.
